@@ -454,6 +454,60 @@ def _unquote(node: Optional[ast.expr], strict: bool = True) -> Optional[ast.expr
     return T().visit(ast.parse(ast.unparse(node), mode="eval").body)
 
 
+def _set_spelling(node: Optional[ast.AST]) -> Optional[ast.AST]:
+    """`set([a, b])` and the set display `{a, b}` are the same documented spelling: normalise to the display"""
+    if node is None:
+        return None
+
+    class T(ast.NodeTransformer):
+        def visit_Call(self, n: ast.Call) -> ast.AST:
+            self.generic_visit(n)
+            if isinstance(n.func, ast.Name) and n.func.id == "set" and len(n.args) == 1 and not n.keywords \
+                    and isinstance(n.args[0], ast.List) and n.args[0].elts:
+                return ast.Set(elts=n.args[0].elts)
+            return n
+    return T().visit(ast.parse(ast.unparse(node), mode="eval").body)
+
+
+def _regex_verdict(sd: Optional[ast.AST], bd: Optional[ast.AST]) -> Any:
+    """both are re.compile(<constant pattern>[, flags]) calls: True when the two patterns parse (sre) to the same
+    structure under the same flags -- the displayed regex is then equivalent although spelled differently --, a text
+    saying how they differ otherwise; None when this is not a pair of re.compile calls."""
+    def parts(n: Optional[ast.AST]) -> Any:
+        if not (isinstance(n, ast.Call) and isinstance(n.func, ast.Attribute) and n.func.attr == "compile"
+                and isinstance(n.func.value, ast.Name) and n.func.value.id == "re" and n.args
+                and isinstance(n.args[0], ast.Constant) and isinstance(n.args[0].value, (str, bytes))):
+            return None
+        import re as _re
+        flags = 0
+        extra = list(n.args[1:]) + [k.value for k in n.keywords if k.arg == "flags"]
+        for e in extra:
+            try:
+                flags |= int(eval(compile(ast.Expression(e), "<flags>", "eval"), {"re": _re}))
+            except Exception:
+                return None
+        return n.args[0].value, flags
+    ps, pb = parts(sd), parts(bd)
+    if ps is None or pb is None:
+        return None
+    import re as _re
+    try:
+        import re._parser as sre_parse          # Python >= 3.11
+    except ImportError:                          # pragma: no cover
+        import sre_parse                         # type: ignore
+    try:
+        ts = sre_parse.parse(ps[0], ps[1])
+    except Exception:
+        return None                              # the source pattern itself is not a regex: nothing to compare
+    try:
+        tb = sre_parse.parse(pb[0], pb[1])
+    except Exception as e:
+        return f"the displayed pattern does not compile ({e})"
+    if repr(ts) == repr(tb) and ts.state.flags == tb.state.flags and type(ps[0]) is type(pb[0]):
+        return True
+    return "a different regular expression (parsed structure or flags differ)"
+
+
 def _dump(node: Optional[ast.AST]) -> str:
     return "-" if node is None else ast.dump(node)
 
@@ -483,7 +537,14 @@ def oracle(src_fn: ast.AST, displayed: str) -> Optional[Tuple[str, str]]:
     if [d is None for d in s.kw_defaults] != [d is None for d in b.kw_defaults]:
         return ("default-position:kwonly", f"keyword-only defaults moved ({displayed!r})")
     for sd, bd in zip(list(s.defaults) + list(s.kw_defaults), list(b.defaults) + list(b.kw_defaults)):
+        if _dump(sd) != _dump(bd) and _dump(_set_spelling(sd)) == _dump(_set_spelling(bd)):
+            continue                # a set display {1, 2} shown in the documented spelling set([1, 2]) (DESIGN 4.5)
         if _dump(sd) != _dump(bd):
+            rx = _regex_verdict(sd, bd)
+            if rx is True:
+                continue            # re.compile(...) re-spelled into the same parsed pattern and flags: equivalent
+            if rx is not None:
+                return ("default-value:re.compile-respelled:" + ("does-not-compile" if "does not compile" in rx else "different-pattern"), f"default {ast.unparse(sd)} displayed as {ast.unparse(bd)}: {rx} ({displayed!r})")
             return ("default-value", f"default {_dump(sd)} displayed as {_dump(bd)} ({displayed!r})")
     sargs = list(s.posonlyargs) + list(s.args) + ([s.vararg] if s.vararg else []) + list(s.kwonlyargs) + ([s.kwarg] if s.kwarg else [])
     bargs = list(b.posonlyargs) + list(b.args) + ([b.vararg] if b.vararg else []) + list(b.kwonlyargs) + ([b.kwarg] if b.kwarg else [])
@@ -572,7 +633,7 @@ RETS = ["", " -> a99", " -> None"]
 
 DEFAULT_TEMPLATES = ["{m}", "-{m}", "{n}.x", "{n}(1)", "g({m}, k=2)", "[{m}, 1]", "({m}, 2)", "{{'k': {m}}}",
                      "{n}[0]", "{m} + 1", "{m} or None", "not {m}", "'{n}'", "{m} if x else y", "{m} * 2 + 1",
-                     "{n}.y.z", "[]", "None", "True", "'s'", "1.5", "{n}[1:2]", "b'{n}'", "({m} + 1) * 2"]
+                     "{n}.y.z", "({m},)", "g(({m},), 1)", "[]", "None", "True", "'s'", "1.5", "{n}[1:2]", "b'{n}'", "({m} + 1) * 2"]
 ANN_TEMPLATES = ["a{k}", "a{k}.T", "List[a{k}]", "Dict[str, a{k}]", "'a{k}'", "List['a{k}']", "\"List[a{k}]\"",
                  "Optional[\"a{k}\"]", "a{k} | None", "Callable[[int], a{k}]", "Literal['a{k}']", "Tuple[a{k}, ...]",
                  "\"'a{k}'\"", "None", "typing.Optional[a{k}]", "\"a{k} !\"", "List[\"a{k} !\"]", "\"'a{k} !'\"",
@@ -746,6 +807,7 @@ def run_cases(ctx: Ctx, cases: Sequence[Case], batch: int = 400) -> None:
             if c.apply_oracle:
                 v = oracle(c.fn, shown)
                 if v:
+                    v = classify_failure(c.fn, shown, v, [])
                     p = c.payload()
                     p["displayed"] = shown
                     ctx.fail(v[0], p, v[1])
@@ -1293,6 +1355,71 @@ CORPUS = [
 ]
 
 
+def _simulate_comma_loss(node: ast.AST) -> Optional[ast.AST]:
+    """the expression as it reads when every one-element tuple loses its comma ((x,) -> (x), a[x,] -> a[x]);
+    None when that is not an expression any more ((*a,) -> (*a), T[()] -> T[])"""
+    class T(ast.NodeTransformer):
+        bad = False
+
+        def visit_Tuple(self, n: ast.Tuple) -> ast.AST:
+            self.generic_visit(n)
+            if len(n.elts) == 1:
+                if isinstance(n.elts[0], ast.Starred):
+                    self.bad = True
+                    return n
+                return n.elts[0]
+            return n
+
+        def visit_Subscript(self, n: ast.Subscript) -> ast.AST:
+            if isinstance(n.slice, ast.Tuple) and not n.slice.elts:
+                self.bad = True
+            return self.generic_visit(n)
+    t = T()
+    res = t.visit(ast.parse(ast.unparse(node), mode="eval").body)
+    return None if t.bad else res
+
+
+def classify_failure(fn: ast.AST, displayed: str, v: Tuple[str, str], reports: List[str]) -> Tuple[str, str]:
+    """give a read-back failure the SPECIFIC signature of a known cause when, and only when, that cause explains it"""
+    exprs = [e for e in list(fn.args.defaults) + list(fn.args.kw_defaults) +
+             [a.annotation for a in ast.walk(fn.args) if isinstance(a, ast.arg)] + [fn.returns] if e is not None]
+    src_text = ast.unparse(fn.args) + (ast.unparse(fn.returns) if fn.returns is not None else "")
+    exprs = [_unquote_all(e) for e in exprs]         # a tuple written inside a string annotation counts too
+    if displayed.strip() == "(...)":
+        bad = [r for r in reports if "bad signature" in r]
+        kind = "other"
+        if any("undefined entity" in r for r in bad):
+            kind = "undefined-entity"
+        elif any("not well-formed" in r or "invalid token" in r or "invalid character" in r.lower() for r in bad):
+            kind = "invalid-xml-character"
+        elif not bad:
+            kind = "no-report"
+        return ("signature-wiped:" + kind, v[1] + " -- the whole signature is replaced by '(...)': " + "; ".join(bad)[:200])
+    if displayed.count("...") > src_text.count("..."):
+        if any(isinstance(n, ast.JoinedStr) and any(isinstance(p, ast.Constant) and isinstance(p.value, str) and "\n" in p.value
+                                                       for p in n.values) for e in exprs for n in ast.walk(e)):
+            return ("truncated:fstring-with-newline", v[1] + " -- astor writes an f-string holding a newline as a triple-quoted "
+                    "multi-line literal; the inline display is cut at the line break (C15 delegated:astor)")
+        return ("truncated:generic-expression", v[1] + " -- an expression handed to astor is wrapped at ~80 columns and the inline "
+                "display is cut at the line break and ends in '...'")
+    has_small_tuple = any(isinstance(n, ast.Tuple) and len(n.elts) <= 1 for e in exprs for n in ast.walk(e))
+    if has_small_tuple:
+        if v[0] == "display-unparsable":
+            if any(_simulate_comma_loss(e) is None for e in exprs):
+                return ("display-unparsable:singleton-or-empty-tuple", v[1] + " -- (C15 tuple:singleton-comma-lost / tuple:empty-index)")
+        else:
+            try:
+                back = ast.parse("def f" + displayed + ": pass").body[0]
+                bexprs = [e for e in list(back.args.defaults) + list(back.args.kw_defaults) +
+                          [a.annotation for a in ast.walk(back.args) if isinstance(a, ast.arg)] + [back.returns] if e is not None]
+                sims = [_simulate_comma_loss(e) for e in exprs]
+                if len(sims) == len(bexprs) and all(sm is not None and _dump(_unquote(sm)) == _dump(_unquote(be)) for sm, be in zip(sims, bexprs)):
+                    return ("singleton-tuple-comma-lost", v[1] + " -- exactly the one-element tuples lost their comma (C15 tuple:singleton-comma-lost)")
+            except SyntaxError:
+                pass
+    return v
+
+
 def check_module_by_oracle(ctx: Ctx, tag: str, src: str, stream: str = "corpus") -> int:
     """every def of the module judged by the direct oracle only (free-form expressions, no model involved)"""
     from pydoctor import model
@@ -1331,9 +1458,11 @@ def check_module_by_oracle(ctx: Ctx, tag: str, src: str, stream: str = "corpus")
                         if v:
                             ctx.fail("overload:" + v[0], payload, f"{tag}: overload of {name} does not show its own signature: " + v[1])
             else:
-                t, kw = shown_signature(ob, True)
+                with Reports() as rep:
+                    t, kw = shown_signature(ob, True)
                 v = oracle(defs[-1], t)
                 if v:
+                    v = classify_failure(defs[-1], t, v, [d for _, d in rep.seen])
                     ctx.fail(v[0], payload, f"{tag}: {name}: " + v[1])
     try:
         scope(tree.body, "m", False)
@@ -1394,6 +1523,50 @@ def run_operand_shapes(ctx: Ctx) -> None:
                 n += 1
     for start in range(0, len(lines), 200):
         check_module_by_oracle(ctx, "operand-shapes", "\n".join(lines[start:start + 200]) + "\n", stream="operand-shapes")
+
+
+HUNTER_SHAPES: Dict[str, List[str]] = {
+    # one-element / empty tuples (hunt/C14/1; colorizer defect = C15 tuple:singleton-comma-lost, tuple:empty-index)
+    "small-tuple": ["p=(1,)", "p=(a,)", "p='%s' % (a,)", "p=(*a,)", "p=a[1,]", "p=g((1,))", "p: Tuple[()] = ()", "p: Tuple[(int,)] = None",
+                    "p=((1,),)", "p=[(1,)]", "p={'k': (a,)}", "*, p=(None,)", "p: 'Tuple[()]' = None", ") -> Tuple[(",
+                    "p=(1, 2)", "p=()", "p=a[1, 2]", "p: Tuple[int, str] = None"],
+    # characters that are not XML / HTML entities in the signature's HTML (hunt/C14/2; family of C09 html2stan:nbsp-entity)
+    "xml-hostile-text": ["p='\\xa0'", "words, count: int = 0, *, sep='a\\xa0b'", "p: Literal['\\xa0'] = None", "p='\\ufffe'", "p='\\uffff'",
+                         "p=b'\\xa0'", "p='\\x0c'", "p='\\x1b'", "p='&nbsp;'", "p='<b>&amp;</b>'", "p='\\u2028'"],
+    # long expressions of the kinds the colorizer hands to astor (hunt/C14/3)
+    "long-generic": ["x=a < " + "b" * 74, "x=a < " + "b" * 60,
+                     "host, port=8080, timeout=DEFAULT_CONNECTION_TIMEOUT if os.environ.get('APPLICATION_TIMEOUT') is None else float(os.environ['APPLICATION_TIMEOUT']), *, retries=3",
+                     "x=lambda aaaaaaaaaaaaaaaaaaaaaaaaa, bbbbbbbbbbbbbbbbbbbbbbbbbbbbbbbbbb, cccccccccccccccccccccccccc: aaaaaaaaaaaaaaaaaaaaaaaaa + 1",
+                     "x=[iiiiiiiiiiiiiiiiii for iiiiiiiiiiiiiiiiii in range(100000000) if iiiiiiiiiiiiiiiiii % 1234567 == 0 and iiiiiiiiiiiiiiiiii > 12]",
+                     "x: " + "a < b < " + "c" * 80 + " = 1", "x=f'{a}\\n'", "x=f'{a} and {b!r:>10}'", "x=a if b else c",
+                     "x=vvvvvvvvvvvvvvvvvvvvvvvvvvvvvvvvvvvvvvvvvvvvvvvv[llllllllllllllllllllllllllllllllllllllllllll:uuuuuuuuuuuuuuuuuuuuuuuuuuuuuuuuuuuuuuuuuu]"],
+    # documented spelling, not a violation: a set display is shown as set([...])
+    "set-display": ["p={1, 2}", "p={a}", "p=set()", "p=[{1, 2}, {3}]", "p=set([1, 2])"],
+    # re.compile defaults (hunt/C14/4; colorizer defects = C15 regex:*)
+    "regex": ["x=re.compile(r'(?x)a\\ b')", "text, pattern=re.compile(r'(?x) (\\w+) \\ (\\w+) \\# (\\d+)')", "x=re.compile(r'(a)\\1[0]')",
+              "x=re.compile(r'(?P<d>x)(?P=d)0')", "x=re.compile(r'a\\ b', re.VERBOSE)", "x=re.compile(r'(?x)[ #]+ \\d')",
+              "x=re.compile(r'\\d+')", "x=re.compile('a|b')", "x=re.compile(r'(?i)foo(bar)?')", "x=re.compile(r'^[a-z_]\\w*$', re.I)",
+              "x=re.compile(rb'\\x00+')", "x=re.compile(r'(a)(b)\\2')"],
+}
+
+
+def run_hunter_shapes(ctx: Ctx) -> None:
+    """shapes on which a hunter showed the unchanged tree violating the read-back (and their well-behaved neighbours);
+    deterministic, oracle only, every def judged on its own and a failure classified to the SPECIFIC known cause"""
+    for family, sigs in HUNTER_SHAPES.items():
+        lines = ["import re, os", "from typing import *"]
+        n = 0
+        for sig in sigs:
+            src = "def f%d(%s): ..." % (n, sig) if not sig.startswith(") ->") else "def f%d(%s)]: ..." % (n, sig)
+            try:
+                ast.parse(src)
+            except SyntaxError:
+                ctx.count("hunter-shapes:not-python")
+                continue
+            lines.append(src)
+            n += 1
+        ctx.count("hunter-shapes:" + family, n)
+        check_module_by_oracle(ctx, "hunter-shapes:" + family, "\n".join(lines) + "\n", stream="hunter-shapes")
 
 
 def run_corpus(ctx: Ctx) -> None:
@@ -1458,6 +1631,7 @@ def run(ctx: Ctx) -> None:
     rng = ctx.rng
     # 0. deterministic corpus: the shapes of every seeded change, independent of the seed, first
     run_corpus(ctx)
+    run_hunter_shapes(ctx)
     run_operand_shapes(ctx)
     run_fallback(ctx)
     set_env_from_source(MODULE_HEADER)
